@@ -682,6 +682,8 @@ func ruleGroupTrigger(c *Ctx, r *R) {
 			}
 		})
 		okTrig := false
+		startsF := false
+		_ = startsF
 		condSend := false
 		if trig != nil {
 			nOps := 0
@@ -711,6 +713,29 @@ func ruleGroupTrigger(c *Ctx, r *R) {
 			}
 			if nOps != 1 {
 				okTrig = false
+			}
+			// ... and nothing else: a trigger that finds the buffer full means a run is already queued; starting f from here
+			// (g.Do(f) "so that it is not dropped") runs it beside the worker - two runs of f overlap
+			for _, di := range deepInstrs(trig, 2) {
+				cc := callCommon(di.in)
+				if cc == nil {
+					continue
+				}
+				if _, isGo := di.in.(*ssa.Go); isGo {
+					okTrig, startsF = false, true
+					continue
+				}
+				if cal := staticCallee(cc); cal != nil {
+					if cal.Signature.Recv() != nil && isNamedTypeDeep(cal.Signature.Recv().Type(), "xsync", "Group") {
+						okTrig, startsF = false, true
+					}
+					continue
+				}
+				if _, isB := cc.Value.(*ssa.Builtin); isB || cc.IsInvoke() {
+					continue
+				}
+				// a call of a function value: f itself
+				okTrig, startsF = false, true
 			}
 		}
 		r.ok(okTrig, "xsync.Group."+n+"|trigger-is-nonblocking-send", fn.Pos(), "the trigger function must be exactly one non-blocking send on the trigger channel")
